@@ -17,8 +17,10 @@ and writes on the class:
 * `methods` — names registered by `register_method`, in order.
 
 One re-entrant lock per class (`thread_lock`). Every thread runs a first-use
-program: instantiate (also through a plain subclass: same statements), read
-`__spec_class__`, or read `__dataclass_fields__`; each program is a small
+program: instantiate (also through a plain subclass: same statements), instantiate
+through a subclass that defines its own `__new__` (delegating to `super().__new__`,
+with or without the caller's arguments), read `__spec_class__`, or read
+`__dataclass_fields__`; each program is a small
 pc-machine whose steps are single shared reads/writes — exactly the statements
 the harness labels in the real source. A schedule is any list of thread ids.
 
@@ -59,6 +61,23 @@ def Decl.consumed : Decl → Decl
 inductive NewState | wrapper | orig | synthesized | inherited
   deriving DecidableEq, Repr
 
+/-- A `__new__` *body* that can run during a construction: the one of a subclass through
+which the class is used, the class' own, the synthesized `object.__new__` forwarder, the
+one inherited from the parent. (The bootstrap wrapper is not in this list: it is the
+protocol itself.) -/
+inductive NewFn | sub | orig | synthesized | parent
+  deriving DecidableEq, Repr
+
+/-- the function that runs when the `__new__` slot of the decorated class is called -/
+def NewState.fn : NewState → Option NewFn
+  | .wrapper => none | .orig => some .orig | .synthesized => some .synthesized | .inherited => some .parent
+
+/-- one run of a `__new__` body; `args` = it received the arguments of the construction -/
+structure NewCall where
+  fn   : NewFn
+  args : Bool
+  deriving DecidableEq, Repr
+
 /-- The class as written. `methods` = the names the decorator will try to register, in order. -/
 structure Body where
   decls       : List Decl
@@ -86,6 +105,11 @@ def untouched (b : Body) : Cls := ⟨untouchedCore b, .wrapper⟩
 /-- `__new__` after the wrapper removed itself. -/
 def finalNew (b : Body) : NewState :=
   if b.origNew then .orig else if b.parentNew then .inherited else .synthesized
+
+/-- …and the body that then runs for a construction (also what the eagerly bootstrapped
+class runs: its own `__new__`, its parent's, or plain `object.__new__`). -/
+def finalFn (b : Body) : NewFn :=
+  if b.origNew then .orig else if b.parentNew then .parent else .synthesized
 
 /-! ## the body of `bootstrap` as a list of atomic actions -/
 
@@ -127,14 +151,29 @@ def eagerCore (b : Body) : Core := (bootState b (bootActs b).length).1
 
 /-! ## threads -/
 
-inductive Trigger | inst | mdata | fields
+/-- First-use programs. `instSub fwd`: `Sub(...)` where `Sub` is a subclass of the decorated
+class with its own `__new__` that delegates to `super().__new__(cls, *args, **kwargs)`
+(`fwd = true`) or to `super().__new__(cls)` (`fwd = false`). -/
+inductive Trigger | inst | mdata | fields | instSub (fwd : Bool)
   deriving DecidableEq, Repr
+
+/-- the program constructs an instance -/
+def Trigger.isInst : Trigger → Bool
+  | .inst | .instSub _ => true
+  | _ => false
+
+/-- does the subclass' `__new__` hand the caller's arguments on? (`true` when there is none) -/
+def Trigger.fwd : Trigger → Bool
+  | .instSub f => f
+  | _ => true
 
 inductive PC
   | start                               -- nothing happened yet: `Cls(...)` / the attribute read is next
+  | superNew                            -- inside the subclass' own `__new__`, about to call `super().__new__(cls, ..)`
   | lookup                              -- inside the wrapper, about to read `cls.__spec_class__`
   | acqB | recheck | boot (k : Nat) | relB | reread     -- `bootstrap_once` via the placeholder
   | acqN | checkNew | swapNew | relN                    -- the `__new__` wrapper
+  | dispatch                            -- its last statement: `return spec_cls.__new__(cls, *args, **kwargs)`
   | observe                             -- construct the instance / look at what was returned
   | done
   deriving DecidableEq, Repr
@@ -161,15 +200,33 @@ structure Config where
   lock    : Option Nat
   boots   : Nat                 -- ghost: how many times the body of `bootstrap` was entered
   threads : Nat → TState
+  args    : Nat → Bool          -- per thread: the innermost `__new__` frame was given the caller's arguments
+  news    : Nat → List NewCall  -- ghost, per thread: the `__new__` bodies that ran for its construction, in order
 
 def TState.init : TState := ⟨.start, [], none⟩
 
-def Config.init (b : Body) : Config := ⟨untouched b, none, 0, fun _ => TState.init⟩
+def Config.init (b : Body) : Config := ⟨untouched b, none, 0, fun _ => TState.init, fun _ => true, fun _ => []⟩
 
 def Config.setT (c : Config) (t : Nat) (st : TState) : Config :=
   { c with threads := fun i => if i = t then st else c.threads i }
 
+/-- a `__new__` body runs in thread `t` -/
+def Config.log (c : Config) (t : Nat) (x : NewCall) : Config :=
+  { c with news := fun i => if i = t then c.news t ++ [x] else c.news i }
+
+def Config.setArgs (c : Config) (t : Nat) (a : Bool) : Config :=
+  { c with args := fun i => if i = t then a else c.args i }
+
+/-- thread `t` calls what it found in the `__new__` slot of the decorated class (`n`) with the
+arguments of its current frame: a real `__new__` body runs (the wrapper is not one: the
+caller continues inside it). -/
+def Config.logNew (c : Config) (t : Nat) (n : NewState) : Config :=
+  match n.fn with
+  | none => c
+  | some f => c.log t ⟨f, c.args t⟩
+
 inductive Label
+  | superNew | dispatch
   | call | lookup | acquire | recheck | act (a : Act) | release | reread | checkNew | swapNew | observe
   deriving DecidableEq, Repr
 
@@ -181,12 +238,20 @@ def step (b : Body) (trig : Nat → Trigger) (c : Config) (t : Nat) : Option (Co
     match trig t with
     | .inst =>
       -- `type.__call__` picks up `cls.__new__`: the wrapper, or (once it removed itself) the real one
-      some (c.setT t { st with pc := if c.cls.new = .wrapper then PC.lookup else PC.observe }, .call)
+      some ((c.setT t { st with pc := if c.cls.new = .wrapper then PC.lookup else PC.observe }).logNew t c.cls.new, .call)
+    | .instSub _ =>
+      -- `type.__call__` picks up the subclass' own `__new__`: its body starts
+      some ((c.setT t { st with pc := .superNew }).log t ⟨.sub, c.args t⟩, .call)
     | .mdata =>
       -- `cls.__spec_class__`: metadata, or the placeholder's `__get__`
       some (c.setT t { st with pc := if c.cls.core.mdata.isSome then PC.observe else PC.acqB }, .lookup)
     | .fields =>
       some (c.setT t { st with pc := if c.cls.core.fields.isSome then PC.observe else PC.acqB }, .lookup)
+  | .superNew =>
+    -- `super().__new__(cls, ..)`: the `__new__` slot of the decorated class, called with or
+    -- without the caller's arguments
+    some (((c.setArgs t (c.args t && (trig t).fwd)).setT t
+            { st with pc := if c.cls.new = .wrapper then PC.lookup else PC.observe }).logNew t c.cls.new, .superNew)
   | .lookup =>
     -- wrapper: `if not isinstance(cls.__spec_class__, SpecClassMetadata)`
     some (c.setT t { st with pc := if c.cls.core.mdata.isSome then PC.acqN else PC.acqB }, .lookup)
@@ -207,14 +272,19 @@ def step (b : Body) (trig : Nat → Trigger) (c : Config) (t : Nat) : Option (Co
   | .relB => some ({ c.setT t { st with pc := .reread } with lock := none }, .release)
   | .reread =>
     -- `return owner.__spec_class__` / `getattr(owner.__spec_class__, "attrs")`
-    some (c.setT t { st with pc := (match trig t with | .inst => PC.acqN | _ => PC.observe) }, .reread)
+    some (c.setT t { st with pc := if (trig t).isInst then PC.acqN else PC.observe }, .reread)
   | .acqN =>
     if c.lock.isNone then some ({ c.setT t { st with pc := .checkNew } with lock := some t }, .acquire) else none
   | .checkNew =>
     some (c.setT t { st with pc := if c.cls.new = .wrapper then .swapNew else .relN }, .checkNew)
   | .swapNew =>
     some ({ c.setT t { st with pc := .relN } with cls := { c.cls with new := finalNew b } }, .swapNew)
-  | .relN => some ({ c.setT t { st with pc := .observe } with lock := none }, .release)
+  | .relN => some ({ c.setT t { st with pc := .dispatch } with lock := none }, .release)
+  | .dispatch =>
+    -- `return spec_cls.__new__(cls, *args, **kwargs)`: the slot of the DECORATED class (not of the class
+    -- being instantiated), with the arguments the wrapper was given. (Were the wrapper still
+    -- installed it would be entered again; `Inv.swapped` shows it is not.)
+    some ((c.setT t { st with pc := if c.cls.new = .wrapper then PC.lookup else PC.observe }).logNew t c.cls.new, .dispatch)
   | .observe => some (c.setT t { st with pc := .done, obs := some (snapshot c.cls) }, .observe)
   | .done => none
 
@@ -230,10 +300,47 @@ inductive Reachable (b : Body) (trig : Nat → Trigger) : Config → Prop
   | init : Reachable b trig (Config.init b)
   | step {c c' : Config} {l : Label} (t : Nat) : Reachable b trig c → step b trig c t = some (c', l) → Reachable b trig c'
 
+/-- The `__new__` bodies the eagerly bootstrapped class runs for the same program: the
+subclass' own (if the class is used through one), then the class' own / inherited / `object.__new__`
+— each exactly once, the latter with the arguments the subclass hands on. -/
+def eagerNews (b : Body) : Trigger → List NewCall
+  | .inst => [⟨finalFn b, true⟩]
+  | .instSub fwd => [⟨.sub, true⟩, ⟨finalFn b, fwd⟩]
+  | _ => []
+
+/-- Does the EAGERLY bootstrapped class raise for this program? Without any `__new__` in its MRO the
+eager class ends in `object.__new__`, which rejects arguments when the type being instantiated
+overrides `__new__` (the subclass does): `TypeError`. The lazy class keeps the synthesized forwarder
+`__new__(cls, *args, **kwargs)` after the wrapper removed itself, which swallows them — `step` never
+fails (KF-C19-lenient-synthesized-new). -/
+def eagerRaises (b : Body) : Trigger → Bool
+  | .instSub true => finalFn b == .synthesized
+  | _ => false
+
 /-- What every observer is entitled to see. -/
 def eagerObs (b : Body) : Obs :=
   let e := eagerCore b
   ⟨e.mdata, e.fields, e.decls, e.methods, finalNew b⟩
+
+/-! ## Wrong: the wrapper re-dispatching to the class being instantiated -/
+
+namespace Wrong
+
+/-- `step`, except that the wrapper's last statement is `return cls.__new__(cls, *args, **kwargs)`:
+for a construction through a subclass with its own `__new__` that is the subclass' `__new__` again. -/
+def step (b : Body) (trig : Nat → Trigger) (c : Config) (t : Nat) : Option (Config × Label) :=
+  match (c.threads t).pc, trig t with
+  | .dispatch, .instSub _ =>
+    some ((c.setT t { (c.threads t) with pc := .superNew }).log t ⟨.sub, c.args t⟩, .dispatch)
+  | _, _ => SpecVerif.C19.step b trig c t
+
+def run (b : Body) (trig : Nat → Trigger) (c : Config) : List Nat → Config
+  | [] => c
+  | t :: ts => match step b trig c t with
+    | none => run b trig c ts
+    | some (c', _) => run b trig c' ts
+
+end Wrong
 
 /-! ## Legacy: the protocol before the fix (no lock, no re-check) -/
 
